@@ -29,3 +29,15 @@ package api
 //@   ensures [limiter-returned-without-timeout] api.timeout <= 0 ==> typeis(result, http.HandlerFunc) && !called("http.TimeoutHandler")
 //@   ensures [timeout-wrapper-returned-otherwise] api.timeout > 0 ==> called("http.TimeoutHandler") && result == ret("http.TimeoutHandler")
 //@   noeffect http.TimeoutHandler fmt.Sprintf
+
+// C18: where the limit comes from. A configured concurrency of one or more is the capacity of the semaphore exactly
+// (so that many GETs, and no more, hold a slot at once); only a missing or non-positive setting falls back to the
+// default, which is never below 8.
+//@ func New
+//@   props C18
+//@   nosafe
+//@   ensures [configured-concurrency-is-the-limit] result1 == nil && opts.Concurrency >= 1 ==> result0 != nil && cap(result0.inFlightSem) == opts.Concurrency
+//@   ensures [default-when-unset] result1 == nil && opts.Concurrency < 1 ==> result0 != nil && cap(result0.inFlightSem) >= 8
+//@   ensures [limiter-state] result1 == nil ==> result0.requestsInFlight != nil && result0.concurrencyLimitExceeded != nil && result0.timeout == opts.Timeout
+//@   after call prometheus.NewGauge assume res0 != nil
+//@   after call prometheus.NewCounter assume res0 != nil
